@@ -121,3 +121,18 @@ DECIDES += (' C10-PREFIX: for every prefix the lexicon accepts (all spellings / 
 NOT_DECIDED = ('decoding of the source file itself (coding cookie, BOM), surrogate pairs on narrow builds, Py2-style ur"" literals (language_level 2), the escaping of the table data as a C '
                'string literal (C11), the LZSS bit format (C12), the stdlib codecs behind zlib / bz2 / zstd, the interning decision beyond "identifier-like constants are interned".')
 MUTATIONS = 'see /verif/mutants/C10/*/meta.json (34 brainstormed mutants: 26 breaking - all reported, 8 behaviour-preserving - all silent); the 22 variants of the first build are listed above'
+
+# sixth strengthening round (session I1)
+DECIDES += (' C10-CSTR-*: the leg from the literal value to the C source text, i.e. the C11 rules under C10 ids: CSTR-ESC / CSTR-CHR (escape_byte_string / escape_char read back with a '
+            'reference C reader for all 256 bytes and adversarial neighbours), CSTR-CUT (split_string_literal puts the `""` separator of a literal longer than the split limit only between '
+            'escape tokens: decision table over every sequence of the escaper\'s token shapes lying across a chunk end), CSTR-SRC (what is handed to the splitter is escaper output or joined '
+            'with complete escapes), CSTR-ARR (the character-array form of constants >= 64K tokenises exactly at C token boundaries), CSTR-SINK (every quoted placeholder of the literal '
+            'writers is derived from an escaper on every def-use path). C10-TAB now folds _write_escaped_cstring_const as written, with the folded escape_byte_string, and reads the text that '
+            'reaches _write_cstring_const back with the reference C reader: the table slots are compared with the bytes a C compiler sees (two constants whose seam reads `??=` are part of '
+            'the mixes, so escaping string by string instead of the table as a whole is reported). C10-LZSS-EXTENT: see C12-EXTENT.')
+NOT_DECIDED = ('decoding of the source file itself (coding cookie, BOM), surrogate pairs on narrow builds, Py2-style ur"" literals (language_level 2), the LZSS match finder beyond C12-MATCH, '
+               'the stdlib codecs behind zlib / bz2 / zstd, the interning decision beyond "identifier-like constants are interned"; that the cut table of split_string_literal computed at '
+               'limits 6 / 7 is the table at the production limit 2000 (see C11 NOT_DECIDED); C compilers\' limits on literal length.')
+MUTATIONS = ('see /verif/mutants/C10/*/meta.json (47 brainstormed mutants: 33 breaking - all reported, 14 behaviour-preserving - all silent); round 6 added x6-* / P6-* for the C-literal leg '
+             '(cut position, run handling, chunk bookkeeping, literal writer bypassing the splitter, table escaped string by string, separator of the number table); the 22 variants of the '
+             'first build are listed above')
